@@ -54,6 +54,16 @@ Check C07_demux_conn_error_releases_all : forall evs s o,
   demux_run d_init (evs ++ [ConnError]) = (s, o) -> d_map s = [].
 Print Assumptions C07_demux_conn_error_releases_all.
 
+(* the repaired task always finds a free wire id while fewer than 65536 queries
+   are in flight (pigeonhole): the model branch "probe ran out of fuel" is dead,
+   and the Rust `while contains_key` loop terminates *)
+Theorem C07_demux_probe_total : forall V (m : list (N * V)) id, id < 65536 -> lenN m < 65536 ->
+  probe (S (length m)) id m <> None.
+Proof. exact probe_total. Qed.
+Check C07_demux_probe_total : forall V (m : list (N * V)) id, id < 65536 -> lenN m < 65536 ->
+  probe (S (length m)) id m <> None.
+Print Assumptions C07_demux_probe_total.
+
 (* ---- (i) the code as found (F37): two in-flight queries with one id kill
    the task; both waiters fail although nothing went wrong on the network, and
    so does every query submitted afterwards, whatever its id. *)
